@@ -107,6 +107,14 @@ def escape_pair(ctx, rule, which, check_spec=False):
         else:
             ctx.ob(rule, '%s: the raw fast path `%s` only admits characters the pipeline leaves unchanged' % (fname, rc.pattern),
                    True, '%s:%d' % (FZ, node.lineno))
+    for cnt, text, node in getattr(pipe, 'limited', []):
+        ctx.violation(rule, '%s::%s' % (FZ, fname), norm(node),
+                      'parse(dump(the string of %d backslashes followed by `","injected`)): Pattern.sub(repl, text, %s) takes its '
+                      'third argument as the COUNT of replacements (%s = %d): the %dth and later metacharacters are written raw, the '
+                      'quote closes the literal early and the rest is read as further cells'
+                      % (cnt, text, text, cnt, cnt + 1),
+                      'the escaping substitution of %s is limited to the first %d matches' % (fname, cnt), file=FZ,
+                      line=node.lineno, engine='E5')
     # refine the partition with the reader's distinguished characters and the hex-width boundaries
     special = {ord(sp.bs)} | {ord(c) for c in sp.uni} | {ord(c) for c in sp.simple} | {ord(c) for c in sp.uri_keep}
     special |= {ord(c) for c in (pipe.prefix + pipe.suffix)} | {10, 13, 0x20, 0x7f}
@@ -386,7 +394,11 @@ def writer_templates(ctx, rule, modname, mode, version):
         try:
             interp, idx, rets, lad = TP.scalar_template(m, modname, mode, kind, version)
         except (Unsupported, AnalysisError) as e:
-            ctx.error(rule, '%s writer template for %s (%s): %s' % (modname, kind, version, e))
+            from .. import templates as _TPL
+            if isinstance(e, _TPL.DataAsFormat):
+                _TPL.report_data_as_format(ctx, rule, e, 'hszinc/%s.py' % modname, 'hszinc/%s.py::dump_scalar[%s]' % (modname, kind))
+            else:
+                ctx.error(rule, '%s writer template for %s (%s): %s' % (modname, kind, version, e))
             continue
         if rets is None:
             continue
@@ -1056,3 +1068,46 @@ def token_use_rule(ctx, rule, modname, floor=4):
         if okorder:
             ctx.ob(rule, '%s: the action uses token positions %s, each where it belongs' % (node.label(), want), True, where)
     ctx.floor('parse actions picking tokens by position (%s)' % modname, n, floor)
+
+
+def quantity_split(ctx, rule, templates=None):
+    """A Quantity is written <number><unit> with nothing in between; the reader finds the boundary by matching its
+    NUMBER token as far as it goes.  So no text <number as written> + <non-empty start of a unit> may itself be a number
+    for the reader: L(reader number) ∩ L(writer number)·L(unit) = ∅.  (Units are made of letters, % _ / $ and every
+    character above U+007F -- among them the non-ASCII decimal digits that `\\d` and float() accept.)"""
+    m = ctx.model
+    try:
+        g = G.grammar_of(m, 'zincparser')
+        nts = nonterminals(g)
+        q = g.get('hs_quantity')
+    except (Unsupported, AnalysisError) as e:
+        ctx.error(rule, 'quantity grammar: %s' % e)
+        return
+    parts = [c for c in q.children] if q is not None and q.kind == 'And' else []
+    if len(parts) != 2:
+        ctx.error(rule, 'hs_quantity is not <number> <unit>; cannot decide where the unit starts')
+        return
+    try:
+        tr = G.ToRx(nts)
+        rnum = tr.rx(parts[0])
+        runit = tr.rx(parts[1])
+        wnum = L.ralt(S.lexform('str_float_finite'), S.lexform('str_int'))
+        wunit = S.domain('unit')
+        w = L.find_common(rnum, L.rcat(wnum, wunit))
+    except Unsupported as e:
+        ctx.error(rule, 'quantity split: %s' % e)
+        return
+    where = '%s:%s' % (FP, parts[0].lineno)
+    if w is None:
+        ctx.ob(rule, 'no <number as written><start of a unit> is itself a number for the reader: the number token stops where '
+                     'the unit begins', True, where)
+    else:
+        text = show(w)
+        ctx.violation(rule, '%s::%s' % (FP, parts[0].label() or 'hs_decimal'), 'L(number token) ∩ L(written number)·L(unit)',
+                      'dump then parse of a Quantity whose unit starts with a character the number token also accepts: the text %r '
+                      '(a number followed by a unit) is matched by the reader\'s number token as a whole -- the leading unit '
+                      'character is absorbed into the number (float() accepts non-ASCII decimal digits), value and unit both change'
+                      % text,
+                      'the reader\'s number token also matches <written number> + <start of a unit>: the boundary between number and '
+                      'unit is lost', file=FP, line=parts[0].lineno, engine='E3')
+    _ = runit
